@@ -17,6 +17,15 @@ def P(variants, quick_s, thorough_s, rule, probes=None, probes_thorough=None, as
     return d
 
 PROPS = {
+    "C09": P(["plain"], 30, 900,
+             "plans = a simulated file tree (root + include files, include chains up to 200 deep, files without magic, missing files) over the line grammar "
+             "comment | blank | begin NAME | end [junk] | %include F | text, nesting depth biased to 9..11, 19..21, 39..41, 79..81, 159..161, 200, 255, 0..200 registered contexts bound to 8 recording handlers, "
+             "optional override of the null context, fopen failures and seeded read chunking from the parse op's fault script, parse with and without a search path; "
+             "oracle = reference dispatcher producing the exact handler-call trace incl. state tokens, stack balance and index<capacity through read-only accessors; "
+             "distinct = distinct trace hash; non-trivial = >= 3 ops",
+             probes=["depth_crossed_20", "depth_crossed_40", "depth_crossed_80", "depth_crossed_160", "include_depth_crossed_10", "include_depth_crossed_20", "include_depth_crossed_40",
+                     "include_depth_crossed_80", "include_depth_crossed_160", "unknown_context", "surplus_end", "eof_without_newline", "include_open_failed", "contexts_crossed_20",
+                     "contexts_crossed_160", "unbalanced_input"]),
     "C14": P(["asan"], 30, 900,
              "plans = 1..20 URL texts per run (4/5 assembled from component tuples over small alphabets with each optional part present/absent, 1/5 arbitrary byte strings), "
              "one simulated name-service table per run (7 bits: tcp/udp/ip protocols, http/ftp/dns services, a service whose protocol is missing), two stack paints per URL; "
